@@ -439,14 +439,20 @@ theorem matchType_congr {d d' : Dfa} {i : Nat} (h : d'[i]? = d[i]?) (t : Nat) :
 
 /-- state `i` is finished: its edges lead to the states of the successor sets, and only those exist -/
 def Good (N : Nfa) (st : DSt) (i : Nat) : Prop :=
+  (∀ e, e ∈ Dfa.edgesOf st.states i → e.2 < st.states.size) ∧
   ∀ t, match Dfa.matchType st.states i t with
     | some j => j < st.states.size ∧ (∀ m, m ∈ st.key j ↔ SuccRel N (st.key i) t m) ∧ st.key j ≠ []
     | none => ∀ m, ¬ SuccRel N (st.key i) t m
 
 theorem Good.ext {N : Nfa} {st st' : DSt} {i : Nat} (hg : Good N st i) (hinv : DInv N st) (h : DExt st st')
     (hi : i < st.states.size) : Good N st' i := by
+  refine ⟨fun e he => ?_, ?_⟩
+  · have : Dfa.edgesOf st'.states i = Dfa.edgesOf st.states i := by
+      unfold Dfa.edgesOf; rw [h.same i hi]
+    rw [this] at he
+    exact Nat.lt_of_lt_of_le (hg.1 e he) h.size
   intro t
-  have := hg t
+  have := hg.2 t
   rw [matchType_congr (h.same i hi) t]
   cases hm : Dfa.matchType st.states i t with
   | none =>
@@ -697,6 +703,31 @@ theorem exploreSt_spec (N : Nfa) (hN : N.WF) (U : List (List Nat)) (hU : ∀ l, 
       by_cases hi : i = st.states.size
       · -- the state of `S` itself
         subst hi
+        have hedges : Dfa.edgesOf (cur.states.modify st.states.size (fun s => { s with edges := acc }))
+            st.states.size = acc := by
+          unfold Dfa.edgesOf
+          rw [Array.getElem?_modify, if_pos rfl]
+          have : cur.states[st.states.size]? ≠ none := by
+            rw [ne_eq, Array.getElem?_eq_none_iff]; omega
+          cases hc : cur.states[st.states.size]? with
+          | none => exact absurd hc this
+          | some s0 => simp
+        refine ⟨fun e he => ?_, ?_⟩
+        · rw [hedges] at he
+          simp only [Array.size_modify]
+          have hall : ∀ (out : List (Nat × List Nat)) (acc : List (Nat × Nat)),
+              List.Forall₂ (fun (p : Nat × List Nat) (q : Nat × Nat) =>
+                q.1 = p.1 ∧ q.2 < cur.states.size ∧ cur.key q.2 = sortDesc p.2) out acc →
+              ∀ q, q ∈ acc → q.2 < cur.states.size := by
+            intro out acc hf
+            induction hf with
+            | nil => intro q hq; simp at hq
+            | cons hpq _ ih =>
+              intro q hq
+              rcases List.mem_cons.1 hq with rfl | hq
+              · exact hpq.2.1
+              · exact ih q hq
+          exact hall _ _ hloop.edges e he
         intro t
         have hmtS : Dfa.matchType (cur.states.modify st.states.size (fun s => { s with edges := acc }))
             st.states.size t = (acc.find? (fun q => q.1 == t)).map (·.2) := by
@@ -739,8 +770,16 @@ theorem exploreSt_spec (N : Nfa) (hN : N.WF) (U : List (List Nat)) (hU : ∀ l, 
               rw [hnil] at this
               simp at this
       · have hg := hloop.good i (by omega) hi2
+        refine ⟨fun e he => ?_, ?_⟩
+        · have : Dfa.edgesOf (cur.states.modify st.states.size (fun s => { s with edges := acc })) i =
+              Dfa.edgesOf cur.states i := by
+            unfold Dfa.edgesOf
+            rw [Array.getElem?_modify, if_neg (fun h => hi h.symm)]
+          rw [this] at he
+          simp only [Array.size_modify]
+          exact hg.1 e he
         intro t
-        have := hg t
+        have := hg.2 t
         rw [hmt i hi t]
         simp only [hkeyfin, Array.size_modify]
         exact this
@@ -784,7 +823,7 @@ theorem run_spec (N : Nfa) (st : DSt) (hall : ∀ i, i < st.states.size → Good
   | cons t w ih =>
     intro i hi hne
     unfold Dfa.run RunSet
-    have hg := hall i hi t
+    have hg := (hall i hi).2 t
     cases hm : Dfa.matchType st.states i t with
     | none =>
       rw [hm] at hg
@@ -834,6 +873,18 @@ theorem dfa_validEnd (N : Nfa) (st : DSt) (hinv : DInv N st) (q : Nat) (hq : q <
   cases hs : st.states[q]? with
   | none => rw [Array.getElem?_eq_none_iff] at hs; omega
   | some s => exact hinv.valid q s hs
+
+/-- the compiled automaton is well formed: it has a start state and its edges lead to states -/
+theorem dfa_edges_lt (N : Nfa) (hN : N.WF) :
+    0 < (dfa N).size ∧ ∀ q e, e ∈ (dfa N).edgesOf q → e.2 < (dfa N).size := by
+  obtain ⟨st, hd, _, h0, _, hall⟩ := dfa_spec N hN
+  rw [hd]
+  refine ⟨h0, fun q e he => ?_⟩
+  by_cases hq : q < st.states.size
+  · exact (hall q hq).1 e he
+  · unfold Dfa.edgesOf at he
+    rw [Array.getElem?_eq_none_iff.2 (by omega)] at he
+    simp at he
 
 /-- **stage 3**: the compiled automaton simulates the NFA: after `w` it is in a state exactly when some
     (non-pass-through) NFA node is reached on `w`, and that state is a valid end exactly when the accepting
